@@ -13,9 +13,10 @@ STATUS: proved in full.
    abstract option list), Lemmas/EditPatch.lean (the byte-level key lemma: next-option header rewrite = canonical header
    with the new delta, all size classes), Lemmas/EditRefine.lean, Lemmas/EditApi.lean, Lemmas/EditTrace.lean.
  * whole sequences + round trip: `edits_then_roundtrip` (`roundtrip_of_refined` is its second half).
- * The OPEN finding hop-limit-left-by-refused-proxy is not excluded but characterised exactly: it is the third
-   alternative of `EditOutcome` / the `leftover` constructor of `EditTrace` (witness: C01.refused_proxy_leaves_hop_limit
-   and the example at the end of this file).
+ * The former open finding hop-limit-left-by-refused-proxy is FIXED in libcoap (coap_add_option_internal removes the
+   implicit Hop-Limit again when the Proxy-Uri / Proxy-Scheme option is refused); M is transcribed from the fixed code,
+   and the third alternative of `EditOutcome` / the `leftover` constructor of `EditTrace` that described it are gone:
+   a refused edit leaves the abstract message unchanged, full stop (example at the end of this file).
 -/
 namespace Coap.C04
 open Coap Coap.M
@@ -139,12 +140,11 @@ example : Spec.applyEdit true ⟨0, 1, 7, [], [(11, [0x61])], []⟩ (.insert 35 
 
 /-- the possible outcomes of an option-adding edit `e` of option `n` (an insertion, or an update of an absent option):
 accepted = the abstract edit of S, with D13's implicit Hop-Limit only where D13 allows it; refused = nothing changes
-(D14); the third alternative is the OPEN finding hop-limit-left-by-refused-proxy, characterised exactly: the call is a
-Proxy-Uri / Proxy-Scheme on a request without Hop-Limit, and what is left behind is precisely Hop-Limit = 16 -/
+(D14).  (Before the fix of hop-limit-left-by-refused-proxy there was a third alternative:
+ `rc = 0 ∧ Spec.hopApplies a.code n a.opts = true ∧ a' = { a with opts := Spec.insertStable 16 [16] a.opts }`.) -/
 def EditOutcome (a : Msg) (n : Nat) (e : Spec.Edit) (rc : Nat) (a' : Msg) : Prop :=
   (rc ≠ 0 ∧ ∃ hop : Bool, (hop = true → Spec.hopApplies a.code n a.opts = true) ∧ a' = Spec.applyEdit hop a e) ∨
-  (rc = 0 ∧ a' = a) ∨
-  (rc = 0 ∧ Spec.hopApplies a.code n a.opts = true ∧ a' = { a with opts := Spec.insertStable 16 [16] a.opts })
+  (rc = 0 ∧ a' = a)
 
 /-- **coap_insert_option refines the abstract insertion**, for every abstract message the builders/editors can
 produce (`Shape`), every option number, every value (too long included), every capacity: the result is again a
@@ -156,15 +156,13 @@ theorem insert_refines (ms : Nat) (a : Msg) (n : Nat) (v : Bytes) (hs : Shape a)
       EditOutcome a n (.insert n v) rc a' ∧
       (rc = 0 → v.length > 65804 ∨ (n = lastNum a.opts ∧ ¬ repeatable n = true) ∨ ms ≠ 0) := by
   refine ⟨_, _, insertOption_conc ms a n v hs hn, absInsert_shape ms a n v hs hn, ?_, ?_⟩
-  · rcases absInsert_cases ms a n v with ⟨k1, hop, k2, k3⟩ | ⟨k1, k2, _⟩ | ⟨k1, k2, k3, _⟩
+  · rcases absInsert_cases ms a n v with ⟨k1, hop, k2, k3⟩ | ⟨k1, k2, _⟩
     · exact Or.inl ⟨k1, hop, k2, k3⟩
-    · exact Or.inr (Or.inl ⟨k1, k2⟩)
-    · exact Or.inr (Or.inr ⟨k1, k2, k3⟩)
+    · exact Or.inr ⟨k1, k2⟩
   · intro h0
-    rcases absInsert_cases ms a n v with ⟨k1, _⟩ | ⟨_, _, k3⟩ | ⟨_, _, _, k4⟩
+    rcases absInsert_cases ms a n v with ⟨k1, _⟩ | ⟨_, _, k3⟩
     · exact absurd h0 k1
     · exact k3
-    · exact Or.inr (Or.inr k4)
 
 /-- the middle path in closed form (the statement announced in design/C04.md): an insertion below the highest option
 number that fits is accepted, returns the encoded size, never adds anything else, and yields exactly the stable
@@ -233,15 +231,13 @@ theorem update_refines (ms : Nat) (a : Msg) (n : Nat) (v : Bytes) (hs : Shape a)
       intro hop; simp [Spec.applyEdit, hh]
     rw [hu]
     constructor
-    · rcases absInsert_cases ms a n v with ⟨k1, hop, k2, k3⟩ | ⟨k1, k2, _⟩ | ⟨k1, k2, k3, _⟩
+    · rcases absInsert_cases ms a n v with ⟨k1, hop, k2, k3⟩ | ⟨k1, k2, _⟩
       · exact Or.inl ⟨k1, hop, k2, by rw [hsem]; exact k3⟩
-      · exact Or.inr (Or.inl ⟨k1, k2⟩)
-      · exact Or.inr (Or.inr ⟨k1, k2, k3⟩)
+      · exact Or.inr ⟨k1, k2⟩
     · intro h0
-      rcases absInsert_cases ms a n v with ⟨k1, _⟩ | ⟨_, _, k3⟩ | ⟨_, _, _, k4⟩
+      rcases absInsert_cases ms a n v with ⟨k1, _⟩ | ⟨_, _, k3⟩
       · exact absurd h0 k1
       · exact k3
-      · exact Or.inr (Or.inr k4)
 
 /-- the replacement path in closed form: a present option whose new encoding fits (always, when it does not grow) is
 replaced, return value 1 -/
@@ -257,7 +253,7 @@ theorem update_refines_present (ms : Nat) (a : Msg) (n : Nat) (v : Bytes) (hs : 
 
 /- `callOf` (the API call performing an abstract edit), `editNumOk` (option numbers are 16 bits wide) and `EditTrace`
 (the same edits applied to the abstract model, with M's return codes: `accepted` = `Spec.applyEdit`, `refused` = nothing
-changes, `leftover` = the open finding) are defined in Lemmas/EditTrace.lean. -/
+changes) are defined in Lemmas/EditTrace.lean. -/
 
 /-- **C04, M side, whole sequences**: any sequence of option insertions, updates, removals and token replacements,
 performed by M on the PDU representing `a` (any capacity — refusals included), never leaves the buffer and ends on the
@@ -289,7 +285,7 @@ theorem parsed_start_is_refined (ms : Nat) (p : Proto) (wire : Bytes) (m : Msg) 
 
 /-- well-formedness is kept: if the message was well-formed and every inserted / updated value respects the RFC length
 limit of its option (`editLenOk`), the edited abstract message is well-formed again (on tcp: as long as it still fits
-the 32-bit extended length) — including D13's implicit Hop-Limit and the open finding's leftover one -/
+the 32-bit extended length) — including D13's implicit Hop-Limit -/
 theorem edits_keep_wellformed (p : Proto) (a a' : Msg) (es : List Spec.Edit) (rcs : List Nat) (h : EditTrace a es rcs a')
     (hs : Shape a') (hwf : Spec.WF p a) (hc : a.code ≠ 0) (he : ∀ e ∈ es, editLenOk a.code e)
     (htcp : p = .tcp → (Spec.encRest a').length < 65805 + 4294967296) : Spec.WF p a' :=
@@ -372,10 +368,16 @@ example : Spec.WF .tcp ⟨0, 1, 7, [1], [(11, [0x61]), (300, [1])], [9]⟩ ∧
     (∀ e ∈ [Spec.Edit.insert 290 [0x62], .update 11 [0x69], .remove 300, .setToken [5, 6]], editNumOk e) ∧
     (∀ e ∈ [Spec.Edit.insert 290 [0x62], .update 11 [0x69], .remove 300, .setToken [5, 6]], editLenOk 1 e) := by
   refine ⟨by decide, ?_, ?_⟩ <;> (intro e he; simp at he; rcases he with rfl | rfl | rfl | rfl <;> simp [editNumOk, editLenOk] <;> decide)
-/-- the open finding inside an edit sequence: the refused Proxy-Uri (capacity 12) leaves Hop-Limit = 16 behind -/
+/-- the former open finding inside an edit sequence: the refused Proxy-Uri (capacity 12: Hop-Limit fits, the 20-byte
+Proxy-Uri does not) now leaves nothing behind.  Before the fix the result was
+`R.ok ([0], conc 12 ⟨0, 1, 1, [], [(16, [16])], []⟩)` (the `leftover` step). -/
 example : run (conc 12 ⟨0, 1, 1, [], [], []⟩) ([.insert 35 (List.replicate 20 0x61)].map callOf) =
-    R.ok ([0], conc 12 ⟨0, 1, 1, [], [(16, [16])], []⟩) := by decide
-example : EditTrace ⟨0, 1, 1, [], [], []⟩ [.insert 35 (List.replicate 20 0x61)] [0] ⟨0, 1, 1, [], [(16, [16])], []⟩ :=
-  EditTrace.leftover (by decide) (EditTrace.nil _)
+    R.ok ([0], conc 12 ⟨0, 1, 1, [], [], []⟩) := by decide
+example : EditTrace ⟨0, 1, 1, [], [], []⟩ [.insert 35 (List.replicate 20 0x61)] [0] ⟨0, 1, 1, [], [], []⟩ :=
+  EditTrace.refused (EditTrace.nil _)
+/-- … also through the middle path (Proxy-Uri below max_opt: Hop-Limit inserted before option 300, Proxy-Uri refused,
+Hop-Limit removed again — insertion and removal rewrite the header of option 300 there and back) -/
+example : run (conc 14 ⟨0, 1, 1, [], [(300, [1])], []⟩) [.addOption 35 (List.replicate 20 0x61)] =
+    R.ok ([0], conc 14 ⟨0, 1, 1, [], [(300, [1])], []⟩) := by decide
 
 end Coap.C04
